@@ -123,34 +123,109 @@ structure SampleMatches (P : Params) (s : Sample) (o : OSample) : Prop where
   exemplar : exemplarMatches P s.exemplar o.exemplar
   nh : o.nh = none
 
+/-- pointwise relation of two lists of equal length -/
+inductive Forall2 {α β : Type} (R : α → β → Prop) : List α → List β → Prop
+  | nil : Forall2 R [] []
+  | cons {a : α} {b : β} {as : List α} {bs : List β} : R a b → Forall2 R as bs → Forall2 R (a :: as) (b :: bs)
+
 /-! ## a symbolic instance of the number parameters -/
 
 def refNat? (s : Str) : Option Nat := if !s.isEmpty && s.all isDigit then some (parseDigits s) else none
 
 /-- `int()`: optional sign, ASCII digits -/
 def refInt? : Str → Option Int
-  | '-' :: cs => (refNat? cs).map (fun n => -((n : Int)))
-  | '+' :: cs => (refNat? cs).map (fun n => (n : Int))
-  | cs => (refNat? cs).map (fun n => (n : Int))
+  | '-' :: cs => (refNat? cs).map (fun (n : Nat) => -((n : Nat) : Int))
+  | '+' :: cs => (refNat? cs).map (fun (n : Nat) => ((n : Nat) : Int))
+  | cs => (refNat? cs).map (fun (n : Nat) => ((n : Nat) : Int))
 
 /-- a code for a number token: the characters as base-256 digits (injective on ASCII text) -/
 def tokCode (s : Str) : Nat := s.foldl (fun a c => a * 256 + c.toNat) 1
 
-/-- `float()`: any non-empty token of number characters that is not just signs, coded by its text -/
-def refFloat? (s : Str) : Option Nat :=
-  if !s.isEmpty && s.all isNumChar && s.any (fun c => isDigit c || c == 'I' || c == 'N') then some (tokCode s) else none
+def digitsOK (s : Str) : Bool := !s.isEmpty && s.all isDigit
 
-/-- the symbolic instance: a float IS its token; only the spellings the exposition writes are classified -/
+/-- `D+ | D+.D* | .D+` -/
+def mantissaOK (s : Str) : Bool :=
+  match splitFirst '.' s with
+  | (a, none) => digitsOK a
+  | (a, some b) => (digitsOK a && b.all isDigit) || (a.isEmpty && digitsOK b)
+
+def dropSign : Str → Str
+  | '-' :: t => t
+  | '+' :: t => t
+  | s => s
+
+/-- the ASCII float syntax CPython's `float()` accepts (underscores and surrounding blanks aside) -/
+def floatSyntax (s : Str) : Bool :=
+  let body := dropSign s
+  body == cs!"Inf" || body == cs!"inf" || body == cs!"NaN" || body == cs!"nan" ||
+    (match splitFirst 'e' body with
+     | (m, none) => mantissaOK m
+     | (m, some x) => mantissaOK m && digitsOK (dropSign x))
+
+/-- thousand-millionths of a plain decimal `[-+]D+[.D{1,9}]` -/
+def decScaled (s : Str) : Option Int :=
+  let neg := s.head? == some '-'
+  let v : Option Nat := match splitFirst '.' (dropSign s) with
+    | (a, none) => if digitsOK a then some (parseDigits a * nsPerSec) else none
+    | (a, some b) => if digitsOK a && digitsOK b && b.length ≤ 9 then some (parseDigits a * nsPerSec + parseDigits (nineDigits b)) else none
+  v.map (fun (n : Nat) => if neg then -((n : Nat) : Int) else ((n : Nat) : Int))
+
+/-- `float()`: a token in float syntax.  Codes: 0 = NaN, 1 = +Inf, 2 = -Inf, `4 + 2|v| (+1 when written with a minus sign)` for a
+plain decimal of at most nine fractional digits (v in thousand-millionths), and an opaque code of the text otherwise -/
+def refFloat? (s : Str) : Option Nat :=
+  if !floatSyntax s then none
+  else
+    let body := dropSign s
+    if body == cs!"NaN" || body == cs!"nan" then some 0
+    else if body == cs!"Inf" || body == cs!"inf" then some (if s.head? == some '-' then 2 else 1)
+    else match decScaled s with
+      | some v => some (4 + 2 * v.natAbs + (if s.head? == some '-' then 1 else 0))
+      | none => some (10 ^ 40 + tokCode s)
+
+/-- the value behind a code -/
+inductive RefVal
+  | nan | pinf | ninf
+  | fin (v : Int)
+  | opaque (c : Nat)
+deriving DecidableEq, Repr
+
+def refDecode (b : Nat) : RefVal :=
+  if b == 0 then .nan else if b == 1 then .pinf else if b == 2 then .ninf
+  else if b ≥ 10 ^ 40 then .opaque b
+  else if b < 4 then .nan
+  else .fin (if (b - 4) % 2 == 1 then -(((b - 4) / 2 : Nat) : Int) else (((b - 4) / 2 : Nat) : Int))
+
+def refNum : Num → RefVal
+  | .int n => .fin (n * nsPerSec)
+  | .flt b => refDecode b
+
+def refLt : RefVal → RefVal → Bool
+  | .fin a, .fin b => a < b
+  | .ninf, .fin _ => true
+  | .ninf, .pinf => true
+  | .fin _, .pinf => true
+  | _, _ => false
+
+def refEq : RefVal → RefVal → Bool
+  | .fin a, .fin b => a == b
+  | .pinf, .pinf => true
+  | .ninf, .ninf => true
+  | .opaque a, .opaque b => a == b
+  | _, _ => false
+
+/-- the symbolic instance: decimals with at most nine fractional digits carry their value, the other spellings are opaque -/
 def refP : Params where
   pyInt := refInt?
   pyFloat := refFloat?
-  lt _ _ := false
-  le _ _ := true
-  eq a b := a == b
-  isNaN b := b == tokCode cs!"NaN"
-  isInf b := b == tokCode cs!"+Inf" || b == tokCode cs!"-Inf"
-  isPosInf b := b == tokCode cs!"+Inf"
-  isInteger _ := true
+  lt a b := refLt (refNum a) (refNum b)
+  le a b := refLt (refNum a) (refNum b) || refEq (refNum a) (refNum b)
+  eq a b := refEq (refNum a) (refNum b)
+  isNaN b := b == 0
+  isInf b := b == 1 || b == 2
+  isPosInf b := b == 1
+  isInteger b := match refDecode b with
+    | .fin v => v % nsPerSec == 0
+    | _ => false
   intTooBig _ := false
   tsFloat _ _ := none
   reW c := c.isAlphanum || c == '_'
